@@ -210,3 +210,104 @@ Proof.
   - intros id f Hin. pose proof (asc_get_in _ _ _ A2 Hin) as Hg. rewrite Hget in Hg.
     destruct (id <? n) eqn:E2; [lia|]. destruct (id <? mid) eqn:E3; [discriminate|lia].
 Qed.
+
+(* ---- re-running an interrupted adoption ------------------------------------------------------------- *)
+(* the merge directory holds the rewritten files j .. n-1 (the files below j were already moved) *)
+Lemma count_rewritten_from mf j n0 mid : (forall x, older_get mf x <> None <-> j <= x /\ x < n0) -> j < n0 -> n0 <= mid ->
+  forall fuel id acc, (N.to_nat (mid - id) <= fuel)%nat -> acc = (if id <=? j then 0 else N.min id n0) ->
+  count_rewritten mf fuel id mid acc = n0.
+Proof.
+  intros Hpres Hj Hn. induction fuel as [|fuel IH]; intros id acc Hf Hacc; cbn [count_rewritten].
+  - subst acc. clear Hpres. destruct (id <=? j) eqn:E; [lia|]. destruct (N.min_spec id n0) as [[? ->]|[? ->]]; lia.
+  - destruct (mid <=? id) eqn:E.
+    + subst acc. clear Hpres IH. destruct (id <=? j) eqn:E2; [lia|]. destruct (N.min_spec id n0) as [[? ->]|[? ->]]; lia.
+    + apply IH; [lia|]. rewrite files_get_eq. destruct (older_get mf id) as [g|] eqn:Eg.
+      * assert (Hid : j <= id /\ id < n0) by (apply Hpres; rewrite Eg; discriminate). clear Hpres IH. cbv beta iota.
+        destruct (id + 1 <=? j) eqn:E2; [lia|]. destruct (N.min_spec (id + 1) n0) as [[? ->]|[? ->]]; lia.
+      * assert (Hid : ~ (j <= id /\ id < n0)) by (intros H; apply Hpres in H; contradiction). subst acc. clear Hpres IH. cbv beta iota.
+        destruct (id <=? j) eqn:E1; destruct (id + 1 <=? j) eqn:E2; lia.
+Qed.
+
+Lemma count_rewritten_none mf mid : (forall x, older_get mf x = None) ->
+  forall fuel id acc, count_rewritten mf fuel id mid acc = acc.
+Proof.
+  intros Hn. induction fuel as [|fuel IH]; intros id acc; cbn [count_rewritten]; [reflexivity|].
+  destruct (mid <=? id); [reflexivity|]. rewrite files_get_eq, Hn. apply IH.
+Qed.
+
+Lemma remove_originals_zero data fuel id mid : (forall x, id <= x -> x < mid -> older_get data x = None) ->
+  asc data -> fst (remove_originals data fuel id mid) = data.
+Proof.
+  revert data id. induction fuel as [|fuel IH]; intros data id Hn Ha; cbn [remove_originals fst]; [reflexivity|].
+  destruct (mid <=? id) eqn:E; [reflexivity|].
+  assert (Hdel : files_del data id = data).
+  { apply asc_ext; [apply asc_del; exact Ha|exact Ha|]. intros x. rewrite (files_del_get data id x Ha).
+    destruct (x =? id) eqn:E2; [|reflexivity]. assert (x = id) by lia. subst x. symmetry. apply Hn; lia. }
+  rewrite Hdel. specialize (IH data (id + 1) ltac:(intros x H1 H2; apply Hn; lia) Ha).
+  destruct (remove_originals data fuel (id + 1) mid) as [data' evs]. exact IH.
+Qed.
+
+Theorem load_merge_resume k md mid n j h MFull :
+  k_merge k = Some md -> m_marker md = Some mid -> 0 < mid -> 0 < n -> n <= mid -> j <= n ->
+  merged_ok MFull n -> m_files md = from_ j MFull ->
+  asc (k_data k) -> Forall file_ok (k_data k) ->
+  (forall x, x < j -> older_get (k_data k) x = older_get MFull x) ->
+  (0 < j -> forall x, n <= x -> x < mid -> older_get (k_data k) x = None) ->
+  (m_hint md = Some h \/ (m_hint md = None /\ k_hint k = Some h /\ j = n)) ->
+  exists data2 ev, load_merge_files k = (mkDisk data2 (Some h) None, mid, ev) /\
+    asc data2 /\ Forall file_ok data2 /\
+    below n data2 = MFull /\ from_ mid data2 = from_ mid (k_data k) /\
+    (forall id f, In (id, f) data2 -> id < n \/ mid <= id).
+Proof.
+  intros Hm Hmk Hmid Hn0 Hn Hj (Hma & Hmok & Hpres) Hmf Hda Hdok Hinst Hrem Hhint.
+  assert (Hmfget : forall x, older_get (m_files md) x = if j <=? x then older_get MFull x else None).
+  { intros x. rewrite Hmf. unfold from_. apply (older_get_filter (fun i => j <=? i)). }
+  assert (Hmfa : asc (m_files md)) by (rewrite Hmf; apply asc_filter; exact Hma).
+  assert (Hmfok : forall i g, older_get (m_files md) i = Some g -> file_ok (i, g)).
+  { intros i g Hg. rewrite Hmfget in Hg. destruct (j <=? i); [|discriminate].
+    rewrite Forall_forall in Hmok. apply Hmok. apply older_get_some_in. exact Hg. }
+  assert (Hfinal : forall data2, asc data2 ->
+             (forall x, older_get data2 x = if x <? n then older_get MFull x else if x <? mid then None else older_get (k_data k) x) ->
+             below n data2 = MFull /\ from_ mid data2 = from_ mid (k_data k) /\ (forall id f, In (id, f) data2 -> id < n \/ mid <= id)).
+  { intros data2 A2 Hget. split; [|split].
+    - apply asc_ext; [apply asc_filter; exact A2|exact Hma|]. intros x. unfold below.
+      rewrite (older_get_filter (fun i => i <? n)), Hget. destruct (x <? n) eqn:Ex; [reflexivity|].
+      destruct (older_get MFull x) as [g|] eqn:Eg; [|reflexivity].
+      exfalso. assert (Hx : x < n) by (apply Hpres; rewrite Eg; discriminate). lia.
+    - apply asc_ext; [apply asc_filter; exact A2|apply asc_filter; exact Hda|]. intros x. unfold from_.
+      rewrite !(older_get_filter (fun i => mid <=? i)), Hget. destruct (mid <=? x) eqn:Ex; [|reflexivity].
+      destruct (x <? n) eqn:E2; [lia|]. destruct (x <? mid) eqn:E3; [lia|reflexivity].
+    - intros id f Hin. pose proof (asc_get_in _ _ _ A2 Hin) as Hg. rewrite Hget in Hg.
+      destruct (id <? n) eqn:E2; [lia|]. destruct (id <? mid) eqn:E3; [discriminate|lia]. }
+  unfold load_merge_files. rewrite Hm, Hmk. destruct (mid =? 0) eqn:E0; [lia|].
+  assert (Hh' : exists ev3, (match m_hint md with Some h0 => (Some h0, [EvRename MHint FHint]) | None => (k_hint k, []) end) = (Some h, ev3)).
+  { destruct Hhint as [->|(-> & -> & _)]; eexists; reflexivity. }
+  destruct Hh' as [ev3 Hh'].
+  destruct (N.eq_dec j n) as [Hjn|Hjn].
+  - (* every rewritten file was already moved *)
+    subst j. rewrite (count_rewritten_none (m_files md) mid) by (intros x; rewrite Hmfget; destruct (n <=? x) eqn:E; [|reflexivity];
+      destruct (older_get MFull x) as [g|] eqn:Eg; [|reflexivity]; exfalso; assert (x < n) by (apply Hpres; rewrite Eg; discriminate); lia).
+    change (0 <? 0) with false. cbv iota. rewrite Hh'. eexists _, _. split; [reflexivity|]. split; [exact Hda|]. split; [exact Hdok|].
+    apply Hfinal; [exact Hda|]. intros x. destruct (x <? n) eqn:Ex; [apply Hinst; lia|].
+    destruct (x <? mid) eqn:Ex2; [apply Hrem; lia|reflexivity].
+  - rewrite (count_rewritten_from (m_files md) j n mid) with (acc := 0) (id := 0); [| |lia|exact Hn|lia|destruct (0 <=? j) eqn:E; [reflexivity|lia]].
+    2: { intros x. rewrite Hmfget. destruct (j <=? x) eqn:E.
+         - split; [intros H; apply Hpres in H; lia|intros [_ H]; apply Hpres; exact H].
+         - split; [intros H; contradiction|lia]. }
+    destruct (0 <? n) eqn:E1; [|lia].
+    destruct (remove_originals_spec file_ok mid (S (N.to_nat mid)) (k_data k) n Hda Hdok) as (A1 & B1 & C1); [lia|].
+    destruct (remove_originals (k_data k) (S (N.to_nat mid)) n mid) as [data1 ev1]. cbn [fst] in *.
+    destruct (rename_rewritten_spec file_ok n (S (N.to_nat mid)) data1 (m_files md) 0 A1 B1 Hmfa Hmfok) as (A2 & B2 & C2); [lia|].
+    destruct (rename_rewritten data1 (m_files md) (S (N.to_nat mid)) 0 n) as [[data2 mf2] ev2]. cbn [fst] in *.
+    rewrite Hh'. eexists _, _. split; [reflexivity|]. split; [exact A2|]. split; [exact B2|].
+    apply Hfinal; [exact A2|]. intros x. rewrite C2, C1, Hmfget. destruct (x <? n) eqn:Ex.
+    + assert (H0 : (0 <=? x) = true) by lia. rewrite H0. cbn [andb].
+      assert (H1 : (n <=? x) = false) by lia. rewrite H1. cbn [andb].
+      destruct (j <=? x) eqn:Ejx.
+      * destruct (older_get MFull x) as [g|] eqn:Eg; [reflexivity|].
+        exfalso. assert (Hx : x < n) by lia. apply Hpres in Hx. contradiction.
+      * apply Hinst. lia.
+    + rewrite Bool.andb_false_r. destruct (x <? mid) eqn:Ex2.
+      * assert (H0 : (n <=? x) = true) by lia. rewrite H0. reflexivity.
+      * rewrite Bool.andb_false_r. reflexivity.
+Qed.
